@@ -20,6 +20,7 @@ func init() {
 			"R4 lock discipline: manyCollection's collectionState/dependencyState/indexes and staticList's vals/indexes are touched only under mu (lock-requiring helpers verified at every caller)",
 			"R5 state change and event distribution are atomic: every Distribute call of a mutex-protected collection is made while its mu is held (events are enqueued in the order of the state writes)",
 			"R7 in every function that builds the event batch it distributes, one pass of the loop that handles a key appends at most one event to that batch (no path appends twice in the same iteration): a second append is a duplicate add/delete for the subscribers",
+			"R8 no operation of a mutex-protected collection reads mutable state in one critical section, releases the lock, and writes state computed from it in a second one (events applied in between are lost from what is published)",
 			"R6 a secondary (dependency) event is matched against both the old and the new object when deciding which inputs to recompute",
 		},
 		NotDecided: "event-stream consistency in general, output diffing, keys moving between parents, join/merge semantics (a duplicate delete in mergejoin was reported by a seeding agent and is noted in DESIGN.md as untriaged); R1 of the design (untracked reads inside transformations) is not armed",
@@ -30,6 +31,7 @@ func init() {
 			{"C16-R5", "events are distributed under the state lock", c16r5},
 			{"C16-R6", "secondary events consider old and new object", c16r6},
 			{"C16-R7", "one output event per key and pass", c16r7},
+			{"C16-R8", "state is not read in one critical section and published in a later one", c16r8},
 		},
 	})
 }
@@ -432,4 +434,193 @@ func feedsBatch(batch, src ssa.Value, depth int, seen map[ssa.Value]bool) bool {
 		return feedsBatch(x.X, src, depth+1, seen)
 	}
 	return false
+}
+
+
+// C16-R8: snapshot-then-publish. For every krt type with a `mu` field: in no method is a mutable field of the receiver
+// read while mu is held, mu then released (not by defer), acquired again, and a mutable field written. What is written in
+// the second critical section was computed from a view that events applied in between have already changed (e.g. an index
+// built under RLock and published under a later Lock permanently misses the object added in between).
+func c16r8(c *Ctx) {
+	p := c.P
+	// mutable fields: written outside constructors
+	mutable := map[*types.Var]bool{}
+	for _, fn := range p.AllFuncs {
+		if funcPkgPath(fn) != istioMod+"/"+pkgKrt || strings.HasSuffix(p.Fset.Position(fn.Pos()).Filename, "_test.go") {
+			continue
+		}
+		root := fn
+		for root.Parent() != nil {
+			root = root.Parent()
+		}
+		ln := strings.ToLower(root.Name())
+		if strings.HasPrefix(ln, "new") || strings.HasPrefix(ln, "with") {
+			continue
+		}
+		e := effectsOfFuncs([]*ssa.Function{fn})
+		for f := range e.Writes {
+			mutable[f] = true
+		}
+	}
+	n := 0
+	chosen := map[*ssa.Function]bool{}
+	for _, fn := range p.AllFuncs {
+		if funcPkgPath(fn) != istioMod+"/"+pkgKrt || strings.HasSuffix(p.Fset.Position(fn.Pos()).Filename, "_test.go") || fn.Parent() != nil {
+			continue
+		}
+		if fn.Synthetic != "" && !strings.HasPrefix(fn.Synthetic, "instance of") {
+			continue
+		}
+		if o := fn.Origin(); o != nil && o != fn {
+			if chosen[o] {
+				continue
+			}
+			chosen[o] = true
+		}
+		if fn.Signature.Recv() == nil || len(fn.Params) == 0 {
+			continue
+		}
+		rs := structOf(fn.Signature.Recv().Type())
+		if rs == nil {
+			continue
+		}
+		var muF *types.Var
+		for i := 0; i < rs.NumFields(); i++ {
+			if rs.Field(i).Name() == "mu" {
+				muF = origVar(rs.Field(i))
+			}
+		}
+		if muF == nil {
+			continue
+		}
+		recv := fn.Params[0]
+		onMu := func(ins ssa.Instruction, names ...string) bool {
+			ci, ok := ins.(ssa.CallInstruction)
+			if !ok {
+				return false
+			}
+			if _, isDefer := ins.(*ssa.Defer); isDefer {
+				return false
+			}
+			o := calleeObj(ins)
+			if o == nil {
+				return false
+			}
+			hit := false
+			for _, nm := range names {
+				if o.Name() == nm {
+					hit = true
+				}
+			}
+			if !hit || len(ci.Common().Args) == 0 {
+				return false
+			}
+			fa, ok := ci.Common().Args[0].(*ssa.FieldAddr)
+			return ok && fa.X == ssa.Value(recv) && origVar(fieldVar(fa.X.Type(), fa.Field)) == muF
+		}
+		isLock := func(ins ssa.Instruction) bool { return onMu(ins, "Lock", "RLock") }
+		isUnlock := func(ins ssa.Instruction) bool { return onMu(ins, "Unlock", "RUnlock") }
+		// how a field address rooted at the receiver is used, descending into nested structs; a map held in the field
+		// counts as written when it is updated or deleted from
+		var leafUse func(fa *ssa.FieldAddr, depth int) (r, w bool)
+		leafUse = func(fa *ssa.FieldAddr, depth int) (r, w bool) {
+			fv := origVar(fieldVar(fa.X.Type(), fa.Field))
+			mut := mutable[fv]
+			if fa.Referrers() == nil || depth > 4 {
+				return mut, mut
+			}
+			for _, ref := range *fa.Referrers() {
+				switch x := ref.(type) {
+				case *ssa.FieldAddr:
+					r2, w2 := leafUse(x, depth+1)
+					r, w = r || r2, w || w2
+				case *ssa.Store:
+					if x.Addr == ssa.Value(fa) && mut {
+						w = true
+					}
+				case *ssa.UnOp:
+					if x.Op != token.MUL || !mut {
+						continue
+					}
+					r = true
+					if x.Referrers() != nil {
+						for _, r2 := range *x.Referrers() {
+							switch y := r2.(type) {
+							case *ssa.MapUpdate:
+								if y.Map == ssa.Value(x) {
+									w = true
+								}
+							case *ssa.Call:
+								if bi, ok := y.Call.Value.(*ssa.Builtin); ok && bi.Name() == "delete" && len(y.Call.Args) > 0 && y.Call.Args[0] == ssa.Value(x) {
+									w = true
+								}
+							}
+						}
+					}
+				case ssa.CallInstruction:
+					if mut {
+						r = true
+					}
+				}
+			}
+			return r, w
+		}
+		access := func(ins ssa.Instruction, write bool) bool {
+			fa, ok := ins.(*ssa.FieldAddr)
+			if !ok || fa.X != ssa.Value(recv) {
+				return false
+			}
+			if origVar(fieldVar(fa.X.Type(), fa.Field)) == muF {
+				return false
+			}
+			r, w := leafUse(fa, 0)
+			if write {
+				return w
+			}
+			return r
+		}
+		locks := 0
+		eachInstr(fn, func(ins ssa.Instruction) {
+			if isLock(ins) {
+				locks++
+			}
+		})
+		if locks == 0 {
+			continue
+		}
+		n++
+		// read (under the first lock) -> unlock -> lock -> write
+		var witness ssa.Instruction
+		eachInstr(fn, func(l1 ssa.Instruction) {
+			if witness != nil || !isLock(l1) {
+				return
+			}
+			// a guarded read after l1 before any unlock
+			rd := pathAvoiding(fn, l1, isUnlock, func(i ssa.Instruction) bool { return access(i, false) })
+			if rd == nil {
+				return
+			}
+			un := pathAvoiding(fn, rd, func(ssa.Instruction) bool { return false }, isUnlock)
+			if un == nil {
+				return
+			}
+			l2 := pathAvoiding(fn, un, func(ssa.Instruction) bool { return false }, isLock)
+			if l2 == nil {
+				return
+			}
+			wr := pathAvoiding(fn, l2, isUnlock, func(i ssa.Instruction) bool { return access(i, true) })
+			if wr != nil {
+				witness = wr
+			}
+		})
+		pos := fn.Pos()
+		det := ""
+		if witness != nil {
+			pos = witness.Pos()
+			det = "this method reads mutable state of the collection under its lock, releases the lock, takes it again and writes state at " + p.pos(witness.Pos()) + ": an event applied between the two critical sections is missing from what is published (e.g. an index that permanently lacks the object added while it was being built), so lookups disagree with List()"
+		}
+		c.Check("single critical section between reading and publishing state: "+stableFnName(fn), pos, witness == nil, det)
+	}
+	c.Check("methods of mutex-protected krt types examined", token.NoPos, n >= 20, "fewer locking methods than confirmed by hand")
+	c.Floor(20)
 }
